@@ -176,6 +176,14 @@ pub fn mk_hfb(c: &Value) -> h::FramebufferHeaderTag {
 
 pub fn sized<T: MaybeDynSized + Sized>(t: T, id_const: u64) -> Value {
     let mut m = describe(&t);
+    // a value on the stack: what lies behind the declared size is the struct's alignment padding, which no
+    // constructor initialises and which differs from build to build; it is reported as zero
+    let r = raw(&t);
+    if r.len() >= 8 {
+        let declared = u32::from_le_bytes([r[4], r[5], r[6], r[7]]) as usize;
+        let masked: Vec<u8> = r.iter().enumerate().map(|(i, b)| if i < declared { *b } else { 0 }).collect();
+        m.insert("bytes".into(), out::bytes(&masked));
+    }
     m.insert("id_const".into(), out::le(id_const, 4));
     m.insert("place".into(), placements(&t));
     out::ok(Value::Object(m))
